@@ -21,6 +21,12 @@ CHECKS = {
  'C05': dict(level='fault_enumeration', ref='§5 C05', world='faults',
    text="Fault-site enumeration over sampled workloads: phase 1 records every site a workload reaches (k-th watcher invocation raises, rejected value as k-th key of each update in three rejection kinds, exceptional exit of each context at each unwind depth, rejected constructor); phase 2 re-executes once per selected site (quick: seeded sample, thorough: all + pairs) and compares the object, by an identical probe history, with a fresh twin built on a fresh class from the object's actual values and watchers; plus announce-by-raise against a pre-fault twin and a direct still-deferred check inside surrounding batches.",
    tech="deterministic fault injection with crash-point enumeration: raise/reject at every reached site, model-free fresh-twin differential oracle"),
+ 'C18': dict(level='exploration', ref='§5 C18', world='selector',
+   text="Seeded search over mutation histories of Selector/ListSelector objects (list- and dict-declared, class-level and per-instance): item/key assignment, append, insert, extend, update, pop by index/key, remove, clear, wholesale replacement incl. style switch, interleaved with value assignments; after every step list(objects), objects.items(), names, get_range() and accept/reject of a present and an absent value are compared with a sequential reference container; pop return values and one objects-notification per mutation are checked.",
+   tech="deterministic simulation of mutation histories against a sequential reference container (ordered name/object list), five-view agreement invariant after every step"),
+ 'C19': dict(level='exploration', ref='§5 C19', world='time',
+   text="Seeded search over clock schedules: a run-private param.Time clock is jumped forward, backward, to repeated times, to -1 and far away while Number parameters driven by numbergen generators (names/seeds repeated across instances, arithmetic compositions, one impure counter) are read, double-read, inspected, forced, state-pushed/popped and swapped, inside nested time contexts left normally or by exception; every read is compared with a fresh generator of the same spec at that time; context exit must restore time (value and type), timestep and until.",
+   tech="deterministic simulation with a simulated clock: seeded time jumps (backward, repeated, sentinel, huge) and context faults; fresh-generator table keyed by (generator, time) as oracle"),
  'C10': dict(level='exploration', ref='§5 C10', world='async',
    text="Seeded search over schedules: every run is one exactly repeatable interleaving of assignments (coroutine / async generator / sync generator / bound async / plain / Parameter reference), source changes, rx input updates and reads, single event-loop steps, gate resolutions in any order (optionally failing) and executor-job completions on a virtual-time asyncio loop; oracles: attributable unique results (no stale apply, cancel-is-permanent), final value belongs to the latest evaluation of the latest assignment, bounded quiescence.",
    tech="deterministic simulation: virtual-time asyncio loop with seeded completion orders, interleaved assignments and injected awaitable failures; history oracle with attributable values"),
